@@ -48,6 +48,8 @@ RULES = {
     "R20": "`for b in S.bytes() {` -> `for b__r in S.as_bytes().iter() { let b = *b__r;` (definition of str::bytes)",
     "R7": "error-constructor expression `ParseError::X {..}` -> opaque `mk_err()`",
     "R15": "`E.and_then(|row| row.get(I)).unwrap_or(&0)` -> stub `get_or_zero(E, I)`",
+    "R22": "`match E { Some(&P) => .. }` -> `match E.copied() { Some(P) => .. }`",
+    "R23": "`E == Some(&LIT)` -> `matches!(E.copied(), Some(LIT))`",
     "R17": "`E.parse::<T>()` -> stub `parse_T(E)` with an unconstrained result",
     "R18": "`E.map_err(|_| C)?` -> `match E { Ok(v) => v, Err(_) => return Err(C) }`",
     "R9": "`E as <int>` -> `#[verifier::truncate] (E as <int>)` (Rust `as` is truncation)",
@@ -93,10 +95,11 @@ class Edits:
         self.eds = keep
         self.eds.append((a, b, new, self.n)); self.n += 1
 
-    def insert(self, pos, new):
+    def insert(self, pos, new, soft=False):
         for (s, e, _, _) in self.eds:
             if s != e and s < pos < e:
-                return              # inside replaced text
+                if soft: return     # a rule's insertion inside text that an outer rule replaces as a whole
+                raise ExtractError(f"overlay text at {pos} falls inside rewritten source text")
         self.eds.append((pos, pos, new, self.n)); self.n += 1
 
     def render(self):
@@ -217,6 +220,55 @@ def apply_common_rules(text, ed, rules, log, where):
                     kf += 1
                     i = e + 1; continue
             i += 1
+    if "R22" in rules:
+        # `match E { Some(&P) => .. }` -> `match E.copied() { Some(P) => .. }` (Option<&T>::copied; T: Copy)
+        for i, t in enumerate(toks):
+            if t.kind == "ident" and t.text == "match":
+                ob = first_brace_at_depth0(toks, i + 1)
+                if ob is None: continue
+                cb = match_forward(toks, ob)
+                hits = []
+                depth = 0
+                q = ob + 1
+                while q < cb:
+                    x = toks[q]
+                    if x.kind == "punct" and x.text in OPEN_SET: depth += 1
+                    elif x.kind == "punct" and x.text in CLOSE_SET: depth -= 1
+                    if x.kind == "ident" and x.text == "Some" and depth == 0:
+                        n1 = next_code(toks, q); n2 = next_code(toks, n1)
+                        if toks[n1].text == "(" and toks[n2].text == "&":
+                            hits.append(n2)
+                    q += 1
+                if hits:
+                    last = prev_code(toks, ob)
+                    ed.insert(toks[last].end, ".copied()")
+                    for h in hits: ed.replace(toks[h].start, toks[h].end, "")
+                    log.append(("R22", where, text[t.start:toks[ob].start].strip()[:80]))
+    if "R22" in rules:
+        # `while let Some(&c) = E {` / `if let Some(&c) = E {` -> `.. let Some(c) = E.copied() {`
+        for i, t in enumerate(toks):
+            if t.kind == "ident" and t.text in ("while", "if"):
+                n1 = next_code(toks, i)
+                if n1 is None or toks[n1].text != "let": continue
+                n2 = next_code(toks, n1); n3 = next_code(toks, n2); n4 = next_code(toks, n3)
+                if toks[n2].text != "Some" or toks[n3].text != "(" or toks[n4].text != "&": continue
+                ob = first_brace_at_depth0(toks, match_forward(toks, n3) + 1)
+                if ob is None: continue
+                ed.replace(toks[n4].start, toks[n4].end, "")
+                ed.insert(toks[prev_code(toks, ob)].end, ".copied()")
+                log.append(("R22", where, text[t.start:toks[ob].start].strip()))
+    if "R23" in rules:
+        # `E == Some(&LIT)` -> `matches!(E.copied(), Some(LIT))`
+        for i, t in enumerate(toks):
+            if t.kind == "punct" and t.text == "==":
+                n1 = next_code(toks, i)
+                if toks[n1].text != "Some": continue
+                n2 = next_code(toks, n1); n3 = next_code(toks, n2); n4 = next_code(toks, n3); n5 = next_code(toks, n4)
+                if toks[n2].text != "(" or toks[n3].text != "&" or toks[n5].text != ")": continue
+                st = _postfix_start(toks, prev_code(toks, i))
+                ed.insert(toks[st].start, "matches!(")
+                ed.replace(toks[prev_code(toks, i)].end, toks[n5].end, f".copied(), Some({toks[n4].text}))")
+                log.append(("R23", where, text[toks[st].start:toks[n5].end]))
     if "R15" in rules:
         # `E.and_then(|row| row.get(IDX)).unwrap_or(&0)` -> `get_or_zero(E, IDX)`; a leading `*` deref is kept
         for m in re.finditer(r"(\w+)\s*\.and_then\(\|(\w+)\|\s*\2\.get\(([^()]+)\)\)\s*\.unwrap_or\(&0\)", text):
@@ -240,6 +292,22 @@ def apply_common_rules(text, ed, rules, log, where):
                 ed.replace(toks[p1].start, toks[a3].end, " { Ok(v__) => v__, Err(_) => return Err(")
                 ed.replace(toks[e].start, toks[q].end, ") })")
                 log.append(("R18", where, text[toks[st].start:toks[q].end][:100].replace("\n", " ")))
+    if "R18" in rules:
+        # `E.ok_or_else(|| C)?` -> `(match E { Some(v__) => v__, None => return Err(C) })`
+        for i, t in enumerate(toks):
+            if t.kind == "ident" and t.text == "ok_or_else":
+                p1 = prev_code(toks, i); n1 = next_code(toks, i)
+                if p1 is None or toks[p1].text != "." or toks[n1].text != "(": continue
+                e = match_forward(toks, n1)
+                q = next_code(toks, e)
+                if q is None or toks[q].text != "?": continue
+                a1 = next_code(toks, n1)
+                if toks[a1].text != "||": continue
+                st = _postfix_start(toks, prev_code(toks, p1))
+                ed.insert(toks[st].start, "(match ")
+                ed.replace(toks[p1].start, toks[a1].end, " { Some(v__) => v__, None => return Err(")
+                ed.replace(toks[e].start, toks[q].end, ") })")
+                log.append(("R18", where, text[toks[st].start:toks[q].end][:100].replace("\n", " ")))
     if "R17" in rules:
         # `E.parse::<T>()` -> `parse_T(E)` (stub: body is the original call, contract is nondeterministic)
         for i, t in enumerate(toks):
@@ -253,6 +321,18 @@ def apply_common_rules(text, ed, rules, log, where):
                 ed.insert(toks[st].start, f"parse_{toks[n3].text}(")
                 ed.replace(toks[p1].start, toks[n6].end, ")")
                 log.append(("R17", where, text[toks[st].start:toks[n6].end][:80]))
+    if "R14" in rules:
+        # `E.to_be_bytes()` -> `to_be_bytes_stub(E)` (overlay declares the stub for the operand type)
+        for i, t in enumerate(toks):
+            if t.kind == "ident" and t.text in ("to_be_bytes", "to_le_bytes"):
+                p1 = prev_code(toks, i); n1 = next_code(toks, i)
+                if p1 is None or toks[p1].text != "." or toks[n1].text != "(": continue
+                n2 = next_code(toks, n1)
+                if toks[n2].text != ")": continue
+                st = _postfix_start(toks, prev_code(toks, p1))
+                ed.insert(toks[st].start, f"{t.text}_stub(")
+                ed.replace(toks[p1].start, toks[n2].end, ")")
+                log.append(("R14", where, text[toks[st].start:toks[n2].end]))
     if "R9" in rules:
         _rule_r9(text, toks, ed, log, where)
     if "R10" in rules:
@@ -347,8 +427,8 @@ def _rule_r9(text, toks, ed, log, where):
             # chained casts `x as u8 as char`: fine, inner one handled on its own
             a, b = toks[start].start, toks[j].end
             try:
-                ed.insert(a, "(#[verifier::truncate] (")
-                ed.insert(b, "))")
+                ed.insert(a, "(#[verifier::truncate] (", soft=True)
+                ed.insert(b, "))", soft=True)
             except ExtractError:
                 raise
             log.append(("R9", where, text[a:b]))
@@ -911,6 +991,9 @@ def build_item(cur, log):
         elif x.kind == "after_let":
             # immediately after the statement `let [mut] NAME ... ;` (first declaration of NAME in the body)
             nm = x.arg
+            want_k = 1
+            if "#" in nm: nm, want_k = nm.split("#")[0], int(nm.split("#")[1])   # NAME#k = k-th declaration of NAME
+            seen_k = 0
             hit = None
             q = k_body + 1
             while q < k_close:
@@ -918,6 +1001,8 @@ def build_item(cur, log):
                     n1 = next_code(toks, q)
                     if toks[n1].text == "mut": n1 = next_code(toks, n1)
                     if toks[n1].kind == "ident" and toks[n1].text == nm:
+                        seen_k += 1
+                    if toks[n1].kind == "ident" and toks[n1].text == nm and seen_k == want_k:
                         depth = 0; e = n1
                         while e < k_close:
                             tt = toks[e]
